@@ -29,6 +29,9 @@ RULE = (
     "thread identifiers and task ids are provoked by repetition and counted), callbacks scheduled from a sync method run as an "
     "event-loop callback. Oracle: the verdict of every call under every schedule equals its sequential verdict. Non-trivial = schedule "
     "in which two calls overlapped inside the library's bookkeeping window; distinct = (configuration, mode, release sequence)."
+    ' Import orders: child processes import icontract before asyncio / after it / import asyncio only inside the co'
+    'routines; the verdict of a call made in a task while its parent has a call in flight on the same object / func'
+    'tion equals the verdict of the same call made alone.'
 )
 ASSUMPTIONS = ["gate granularity: preemption between library statements is sampled by the stress tier, not enumerated"]
 
